@@ -776,13 +776,31 @@ Section IntKernels.
   Proof.
     apply (K2_ok SZ SZ SZ (ke_shift_right_logical sb) (lowered_shift_right_logical sb)); try kuses_tac; try root_tac; try solve [kok_tac].
     - intros x y. apply ke_shift_right_logical_sound.
-    - intros x s H. apply andb_prop in H as [H H0]. zin_tac H. apply shift_right_logical_correct; auto. lia.
+    - intros x s H. unfold shift_ok in H. apply andb_prop in H as [H H0]. zin_tac H. apply shift_right_logical_correct; auto. lia.
+  Qed.
+  Lemma kok_sra_mask (ub : ity) sc n : 0 <= snd ub -> kok n sc -> kok n (ke_sra_mask ub sc).
+  Proof. intros H0 H. unfold ke_sra_mask, kz. cbn [kok oarity osb_ok]. repeat split; auto. Qed.
+  Lemma kok_sra_signed : kok 2 (ke_sra_signed sb).
+  Proof.
+    assert (H0 : 0 <= snd sb) by lia.
+    unfold ke_sra_signed, kz, v0, v1. cbn [kok oarity osb_ok snd].
+    repeat split; auto; try lia; try (cbn [kok]; lia); apply kok_sra_mask; cbn [kok oarity osb_ok snd]; repeat split; auto; try lia; cbn [kok]; lia.
+  Qed.
+  Lemma kok_sra_unsigned : kok 2 (ke_sra_unsigned sb).
+  Proof.
+    assert (H0 : 0 <= snd sb) by lia.
+    unfold ke_sra_unsigned, kz, v0, v1. cbn [kok oarity osb_ok snd].
+    repeat split; auto; try lia; try (cbn [kok]; lia); apply kok_sra_mask; cbn [kok oarity osb_ok snd]; repeat split; auto; try lia; cbn [kok]; lia.
   Qed.
   Lemma ki_sra_ok : kern_ok ki_sra.
   Proof.
-    apply (K2_ok SZ SZ SZ (ke_shift_right_arithmetic sb) (lowered_shift_right_arithmetic sb)); try kuses_tac; try root_tac; try solve [kok_tac].
+    apply (K2_ok SZ SZ SZ (ke_shift_right_arithmetic sb) (lowered_shift_right_arithmetic sb)).
+    - unfold ke_shift_right_arithmetic. destruct (is_signed sb); exact I.
+    - unfold ke_shift_right_arithmetic. destruct (is_signed sb); [apply kok_sra_signed | apply kok_sra_unsigned].
+    - unfold ke_shift_right_arithmetic, ke_sra_signed, ke_sra_unsigned, v0. destruct (is_signed sb); cbn [kuses]; tauto.
+    - unfold ke_shift_right_arithmetic, ke_sra_signed, ke_sra_unsigned, v1. destruct (is_signed sb); cbn [kuses]; tauto.
     - intros x y. apply ke_shift_right_arithmetic_sound.
-    - intros x s H. apply andb_prop in H as [H H0]. zin_tac H. apply shift_right_arithmetic_correct; auto. lia.
+    - intros x s H. unfold shift_ok in H. apply andb_prop in H as [H H0]. zin_tac H. apply shift_right_arithmetic_correct; auto. lia.
   Qed.
   Lemma ki_eq_ok : kern_ok ki_eq. Proof. apply (K2_ok SZ SZ SB ke_eq lowered_eq); try kuses_tac; try root_tac; try solve [kok_tac]; try reflexivity. Qed.
   Lemma ki_ne_ok : kern_ok ki_ne. Proof. apply (K2_ok SZ SZ SB ke_ne lowered_ne); try kuses_tac; try root_tac; try solve [kok_tac]; try reflexivity. Qed.
@@ -791,7 +809,7 @@ Section IntKernels.
   Lemma ki_gt_ok : kern_ok ki_gt. Proof. apply (K2_ok SZ SZ SB ke_gt lowered_gt); try kuses_tac; try root_tac; try solve [kok_tac]; try reflexivity; try (intros; apply gt_correct). Qed.
   Lemma ki_ge_ok : kern_ok ki_ge. Proof. apply (K2_ok SZ SZ SB ke_ge lowered_ge); try kuses_tac; try root_tac; try solve [kok_tac]; try reflexivity; try (intros; apply ge_correct). Qed.
   Lemma ke_mul_chain_kok k : kok 1 (ke_mul_chain sb k).
-  Proof. induction k as [|k IH]; cbn; [lia|]. repeat split; auto; try lia. cbn. lia. Qed.
+  Proof. induction k as [|k IH]; cbn; [lia|]. repeat split; auto; try lia; cbn; lia. Qed.
   Lemma ke_mul_chain_uses k : kuses 0 (ke_mul_chain sb k).
   Proof. induction k as [|k IH]; cbn; auto. Qed.
   Lemma ki_ipow_ok n : kern_ok (ki_ipow n).
